@@ -61,6 +61,8 @@ def r_continue2(text, ctx):
         text = text[:m.start()] + "if let %s = %s {%s } else {%s}\n        " % (m.group(1), m.group(2), m.group(3), rest) + text[end:]
         n += 1
     if n == 0:
+        if not re.search(r"\bcontinue\b", text):
+            return text     # no `continue` at all (e.g. the guards written as one `match`): nothing to rewrite
         raise rl.LostAnchor(ctx.key + ": R-continue: no `if let .. { ..; continue; }` guard")
     ctx.app("R-continue", "%d guard(s) `if let P = x { ..; continue; }`" % n, "if let P = x { .. } else { rest of the loop body }")
     return text
